@@ -43,6 +43,27 @@ fn main() {
         }
         return;
     }
+    if id == "astgen" {
+        use proptest::strategy::{Strategy, ValueTree};
+        vcheck::compile::install_panic_hook();
+        let n: usize = args[2].parse().unwrap();
+        let mut runner = proptest::test_runner::TestRunner::deterministic();
+        let (mut ok, mut conflicts, mut err, mut panic) = (0, 0, 0, 0);
+        for i in 0..n {
+            let tape = vcheck::gen::g_ast().new_tree(&mut runner).unwrap().current();
+            let spec = vcheck::gen::build_ast(&tape);
+            let text = spec.render();
+            match vcheck::compile::compile(&text, &vcheck::compile::Cfg::lr()) {
+                Ok(d) => {
+                    if vcheck::compile::has_conflicts(&d) { conflicts += 1 } else { ok += 1; if i < 3 { eprintln!("{text}\n-----"); } }
+                }
+                Err(vcheck::compile::CompileErr::Err(e)) => { err += 1; if err < 3 { eprintln!("ERR {e}\n{text}"); } }
+                Err(vcheck::compile::CompileErr::Panic(p)) => { panic += 1; if panic < 3 { eprintln!("PANIC {p:?}\n{text}"); } }
+            }
+        }
+        eprintln!("ok {ok} conflicts {conflicts} err {err} panic {panic}");
+        return;
+    }
     let tier = match args[2].as_str() {
         "quick" => Tier::Quick,
         "thorough" => Tier::Thorough,
@@ -82,6 +103,8 @@ fn main() {
         "C14" => go(props::c14::C14, tier, seed, &replay),
         "C15" => go(props::c15::C15, tier, seed, &replay),
         "C16" => go(props::c16::C16, tier, seed, &replay),
+        "C17" => go(props::c17::C17, tier, seed, &replay),
+        "C18" => go(props::c18::C18, tier, seed, &replay),
         _ => {
             eprintln!("unknown property {id}");
             std::process::exit(2);
